@@ -190,9 +190,9 @@ func mangle(g *hx.Gen, m []byte, coords int, pfx string) []byte {
 	return m
 }
 
-// emitDbl: e.Add(e, e) / e.Add(e, Q) with Q the same group element — the real code returns a wrong
-// point (Double is not alias-safe); reported, switched on once /repo is repaired.
-const emitDbl = false
+// emitDbl: e.Add(e, e) / e.Add(e, Q) with Q the same group element — regression cases for the
+// repaired defect "Double is not safe when the receiver aliases its argument" (model answers 2P).
+const emitDbl = true
 
 // aliasScalars draws (a, b) for the receiver-aliasing ops. While emitDbl is off, pairs that make one
 // of the aliased additions a doubling (a ≡ ±b, b ≡ 0 mod n) are re-drawn: those forms are the
